@@ -62,22 +62,23 @@ def _delete(what, h0, s0, s1, s2, s3, d0, d1, d2, d3, dabs, do_repack, in_max=95
         w.cleanup()
 
 
-def delete_chunks(h0: int, s0: int, s2: int, d0: bool, d1: bool, d2: bool, d3: bool, dabs: bool, in_max: int, z2: bool, z3: bool, zl: int) -> bool:
+def delete_chunks(s0: int, s2: int, d0: bool, d1: bool, d2: bool, d3: bool, in_max: int) -> bool:
     """
-    delete_objects with the request split into SQL IN-chunks of in_max keys, compressed and plain packed objects, repack.
-    pre: 0 <= h0 <= 3 and 1 <= s0 <= 70000 and 1 <= s2 <= 70000 and 1 <= in_max <= 3 and 2 <= zl <= 70000
+    delete_objects with the request (incl. an absent key) split into SQL IN-chunks of in_max keys; obj2 compressed, obj3
+    plain; then repack.
+    pre: 1 <= s0 <= 70000 and 1 <= s2 <= 70000 and 1 <= in_max <= 3
     post: _
     """
-    return _delete('inv', h0, s0, 7, s2, 9, d0, d1, d2, d3, dabs, True, in_max, z2, z3, zl)
+    return _delete('inv', 1, s0, 7, s2, 9, d0, d1, d2, d3, True, True, in_max, True, False, 5)
 
 
-def delete_repack_pack(h0: int, s0: int, s2: int, d0: bool, d1: bool, d2: bool, d3: bool, dabs: bool, in_max: int, z2: bool, z3: bool, zl: int) -> bool:
+def delete_repack_pack(s0: int, s2: int, d0: bool, d1: bool, d2: bool, d3: bool, in_max: int) -> bool:
     """
     as delete_chunks, but repack_pack('0') is called on its own and the views are answered by a new handle.
-    pre: 0 <= h0 <= 3 and 1 <= s0 <= 70000 and 1 <= s2 <= 70000 and 1 <= in_max <= 3 and 2 <= zl <= 70000
+    pre: 1 <= s0 <= 70000 and 1 <= s2 <= 70000 and 1 <= in_max <= 3
     post: _
     """
-    return _delete('inv', h0, s0, 7, s2, 9, d0, d1, d2, d3, dabs, True, in_max, z2, z3, zl, True)
+    return _delete('inv', 1, s0, 7, s2, 9, d0, d1, d2, d3, True, True, in_max, True, False, 5, True)
 
 
 def delete_repack(h0: int, s0: int, s1: int, s2: int, s3: int, d0: bool, d1: bool, d2: bool, d3: bool, dabs: bool) -> bool:
@@ -104,3 +105,57 @@ def delete_reach(h0: int, s0: int, s1: int, s2: int, s3: int, d0: bool, d1: bool
     post: _
     """
     return _delete('reach', h0, s0, s1, s2, s3, d0, d1, d2, d3, dabs, True)
+
+
+def _dups(what, s0, s2, d0, d2, damaged, good):
+    """stray duplicates/ files: obj0 loose (possibly damaged) with two duplicates (the first junk, the second good iff
+    ``good``), obj2 packed with one good duplicate; delete_objects removes the duplicates of exactly the deleted keys;
+    clean_storage removes the duplicates of intact objects and repairs a damaged object from a good duplicate."""
+    w = make_world(10**9)
+    try:
+        w.set_pack(0, [('junk', 0, 1), ('obj', 2, s2)])
+        w.put_loose(0, s0)
+        k0, k2 = w.key(0, s0), w.key(2, s2)
+        w.put_duplicate(0, s0, False, 'aa')
+        w.put_duplicate(0, s0, good, 'bb')
+        w.put_duplicate(2, s2, True, 'cc')
+        if what == 'delete':
+            req = ([k0] if d0 else []) + ([k2] if d2 else [])
+            got = w.c.delete_objects(req)
+            if sorted(got) != sorted(req):
+                return False
+            left = w.duplicates()
+            want = ([] if d0 else [k0 + '.aa', k0 + '.bb']) + ([] if d2 else [k2 + '.cc'])
+            if left != sorted(want):
+                return False
+            live = ([] if d0 else [(0, s0)]) + ([] if d2 else [(2, s2)])
+            return inv_ok(w.image(), w, objs_map(w, live))
+        if damaged:
+            w.damage_loose(k0, s0)
+        objs = objs_map(w, [(0, s0), (2, s2)])
+        try:
+            w.c.clean_storage()
+        except w.C.InconsistentContent:
+            # only when the object is corrupt and no duplicate is good; nothing may have been lost
+            return damaged and not good and w.duplicates() != []
+        if damaged and not good:
+            return False
+        return w.duplicates() == [] and inv_ok(w.image(), w, objs) and views_ok(w.c, w, objs, ABSENT)
+    finally:
+        w.cleanup()
+
+
+def dups_delete(s0: int, s2: int, d0: bool, d2: bool, good: bool) -> bool:
+    """
+    pre: 1 <= s0 <= 70000 and 1 <= s2 <= 70000
+    post: _
+    """
+    return _dups('delete', s0, s2, d0, d2, False, good)
+
+
+def dups_clean(s0: int, s2: int, damaged: bool, good: bool) -> bool:
+    """
+    pre: 1 <= s0 <= 70000 and 1 <= s2 <= 70000
+    post: _
+    """
+    return _dups('clean', s0, s2, False, False, damaged, good)
